@@ -1,7 +1,10 @@
 SPECIFICATION Spec
-CONSTANTS NR = 3
+CONSTANTS RootPostOverwrites = FALSE
+          FallbackWritten = TRUE
+          NR = 3
 INVARIANT Partition
 INVARIANT CardMeetsTarget
 INVARIANT FailedUnchanged
 INVARIANT ReportedIsWrittenModuloKnown
+INVARIANT ReportedIsWrittenModuloF6
 CHECK_DEADLOCK FALSE
